@@ -54,12 +54,28 @@ pub fn corpus() -> Vec<(String, Box<dyn Fn(&dyn QueryBuilder) -> (String, Values
     add!("many values", { let mut s = Query::select(); s.column(a("c")).from(a("t")).and_where(Expr::col(a("d")).is_in([1, 2, 3, 4, 5, 6, 7, 8, 9, 10, 11, 12, 13])); s });
     add!("control characters", { let mut s = Query::select(); s.column(a("c")).from(a("t")).and_where(Expr::col(a("c")).eq("line\nbreak\ttab")).and_where(Expr::col(a("d")).eq("cr\rbs\u{8}")); s });
     add!("values table", { let mut s = Query::select(); s.column(a("c")).from_values([(1, "it's"), (2, "back\\slash")], a("x")); s });
+    add!("bytes with zero nibbles", { let mut s = Query::select(); s.column(a("c")).from(a("t")).and_where(Expr::col(a("b")).eq(vec![0x0Au8, 0x00, 0x10, 0x7F, 0x0B])); s });
+    add!("crlf text", { let mut s = Query::select(); s.column(a("c")).from(a("t")).and_where(Expr::col(a("c")).eq("dos line\r\nnext\r\n")).and_where(Expr::col(a("d")).eq('\r')); s });
     add!("values table bytes", { let mut s = Query::select(); s.column(a("c")).from_values([(1, vec![0xABu8, 0xCD])], a("x")); s });
     add!("insert rows", Query::insert().into_table(a("t")).columns([a("a"), a("b")]).values_panic([1.into(), "x".into()]).values_panic([2.into(), Value::String(None).into()]).to_owned());
     add!("insert select", Query::insert().into_table(a("t")).columns([a("x")]).select_from(sub()).unwrap().to_owned());
     add!("insert on conflict", Query::insert().into_table(a("t")).columns([a("a")]).values_panic([1.into()]).on_conflict(OnConflict::column(a("a")).value(a("a"), 5).to_owned()).to_owned());
     add!("update", Query::update().table(a("t")).value(a("a"), 1).value(a("b"), "s").and_where(Expr::col(a("c")).between(3, 9)).limit(2).to_owned());
     add!("delete", Query::delete().from_table(a("t")).and_where(Expr::col(a("c")).like("a%")).limit(4).to_owned());
+    // (a doubled mark `??` / `$$` is a literal mark by design - C11 - and is indistinguishable from a placeholder in the text: outside C01's domain)
+    // custom templates whose placeholders touch words, digits and punctuation (both marks; the other dialect's mark is plain text)
+    for (i, (tpl, n)) in [("DATE_ADD(?, INTERVAL ?DAY) + ?", 3), ("COALESCE(?,?)", 2), ("(?)", 1), ("?+?-?", 3), ("?x", 1), ("x ?", 1), ("'?' ? \"?\"", 1),
+                          ("$1+$2", 2), ("f($2,$1)", 2), ("$1 $1", 1), ("'$1' $1", 1), ("($1)", 1), ("$1;", 1)].into_iter().enumerate() {
+        let vals: Vec<Value> = (0..n).map(|k| Value::from(100 + k as i32)).collect();
+        add!(format!("custom#{i} {tpl}"), Query::select().expr(Expr::cust_with_values(tpl, vals.clone())).from(a("t")).and_where(Expr::col(a("c")).eq(7)).to_owned());
+        add!(format!("custom-in-subquery#{i} {tpl}"), Query::select().column(a("c")).from(a("t")).and_where(Expr::col(a("e")).in_subquery(Query::select().expr(Expr::cust_with_values(tpl, vals.clone())).from(a("u")).to_owned())).and_where(Expr::col(a("c")).eq(7)).to_owned());
+    }
+    // upsert with both filters, through every spelling of the builder API: the values must come back in clause order
+    for (i, oc) in [OnConflict::column(a("a")).target_and_where(Expr::col(a("a")).gt(11)).value(a("b"), 12).action_and_where(Expr::col(a("b")).lt(13)).to_owned(),
+                    OnConflict::column(a("a")).target_and_where_option(Some(Expr::col(a("a")).gt(11))).value(a("b"), 12).action_and_where_option(Some(Expr::col(a("b")).lt(13))).to_owned(),
+                    OnConflict::column(a("a")).target_cond_where(Cond::all().add(Expr::col(a("a")).gt(11))).value(a("b"), 12).action_cond_where(Cond::all().add(Expr::col(a("b")).lt(13))).to_owned()].into_iter().enumerate() {
+        add!(format!("upsert filters#{i} expect-pg=[9,10,11,12,13] expect-my=[9,10,12]"), Query::insert().into_table(a("t")).columns([a("a"), a("b")]).values_panic([9.into(), 10.into()]).on_conflict(oc).to_owned());
+    }
     add!("with", base(13).with(Query::with().cte(CommonTableExpression::new().query(base(10)).table_name(a("w")).to_owned()).to_owned()));
     v
 }
@@ -78,12 +94,27 @@ pub fn check_all(filter: Option<&str>) -> Vec<Witness> {
             let mut w = |prop: &'static str, obs: String, exp: &str| found.push(Witness { property: prop, input: label.clone(), observed: format!("{name}: {obs}; sql = {sql}; values = {:?}", vals.0), expected: exp.to_string() });
             if phs.len() != vals.0.len() { w("C01", format!("{} placeholders vs {} values", phs.len(), vals.0.len()), "as many placeholders as values"); continue; }
             if numbered && phs.iter().enumerate().any(|(i, p)| p.2 != i + 1) { w("C01", format!("placeholder numbers {:?}", phs.iter().map(|p| p.2).collect::<Vec<_>>()), "$1..$n ascending"); continue; }
+            // clause order, where the corpus entry states it: `expect-pg=[..]` (Postgres / SQLite) / `expect-my=[..]`
+            let key = if name == "mysql" { "expect-my=[" } else { "expect-pg=[" };
+            if let Some(p) = label.find(key) {
+                let want: Vec<Value> = label[p + key.len()..].split(']').next().unwrap_or("").split(',').filter_map(|x| x.trim().parse::<i32>().ok()).map(Value::from).collect();
+                if want != vals.0 { w("C01", format!("values {:?}", vals.0), &format!("values in clause order {want:?}")); continue; }
+            }
             // C02: substitute
             let t: Vec<char> = sql.chars().collect();
             let (mut out, mut last) = (String::new(), 0usize);
             for (i, p) in phs.iter().enumerate() { out.extend(&t[last..p.0]); out.push_str(&qb.value_to_string(&vals.0[i])); last = p.1; }
             out.extend(&t[last..]);
-            if out != inl { w("C02", format!("inline = {inl}; substituted = {out}"), "inline == parameterised with placeholders replaced by literals"); }
+            if out != inl { w("C02", format!("inline = {inl}; substituted = {out}"), "inline == parameterised with placeholders replaced by literals"); continue; }
+            // "on a live engine they return the same rows": the literal that stands for a bound text / char / bytes value must
+            // DENOTE that value under the engine's lexer (independent decoders of replay/src/lexers.rs, the C03 oracles)
+            for v in vals.0.iter() {
+                let (txt, by): (Option<String>, Option<Vec<u8>>) = match v { Value::String(Some(x)) => (Some((**x).clone()), None), Value::Char(Some(c)) => (Some(c.to_string()), None), Value::Bytes(Some(b)) => (None, Some((**b).clone())), _ => (None, None) };
+                if txt.is_none() && by.is_none() { continue; }
+                if let Some(x) = crate::c03::check_value(v, txt.as_deref(), by.as_deref(), &label) {
+                    if x.observed.starts_with(name) { w("C02", format!("the inline literal does not denote the bound value: {}", x.observed), &x.expected); break; }
+                }
+            }
         }
         if found.len() >= 8 { break; }
     }
